@@ -11,6 +11,7 @@ var redirectTable = map[string]string{
 	"(*net/textproto.Conn).Close":                     "ModelTextprotoClose",
 	"bufio.NewReader":                                 "ModelBufioNewReader",
 	"(*bufio.Reader).ReadString":                      "ModelBufioReadString",
+	"(*bufio.Reader).ReadLine":                        "ModelBufioReadLine",
 	"(*bufio.Reader).Reset":                           "ModelBufioReset",
 	"bufio.NewScanner":                                "ModelBufioNewScanner",
 	"(*bufio.Scanner).Scan":                           "ModelScannerScan",
